@@ -12,6 +12,8 @@ R9.8  compare-only generation compares every directory it would write: the clien
 R9.6  compare-only generation sees the shared core's exception registry (seeded read-only from the real core)
 R9.7  the two generation branches are siblings: same emitter sequence, each emit once; emit-time renaming of
       IR names is idempotent (records and re-tests the final name)
+R9.12 an existing output package and force=False always select the compare-only branch (truth table of the mode switch)           [= R10.3]
+R9.13 no function on the generation path that reads a file / directory / the environment / a URL is memoised per process (functools caches)
 R9.11 the two operands of every relative-path computation in RenderContext are normalised the same way (both lexical or both symlink-resolved)
 R9.10 compare-only generation creates the ancestor __init__.py files that direct generation creates (same package structure for the post-processor)
 """
@@ -239,6 +241,8 @@ def run(repo: Repo, rep: Report, tier: str) -> None:
         rep.violation("R9.4", f"{sd.module.relpath}:_show_diffs coverage", f"{sd.fq}|coverage",
                       f"the comparison no longer walks all generated *.py files recursively ({[norm(g)[:50] for g in globs]})", sd.loc())
 
+    rule_show_diffs_compares_all(repo, rep, "R9.4")
+
     # ---------------------------------------------------------------- R9.5 / R9.6 / R9.7 on generate()
     from rules import c10
 
@@ -382,6 +386,9 @@ def run(repo: Repo, rep: Report, tier: str) -> None:
     from rules._reuse import reuse
 
     reuse(repo, rep, "c11", {"R11.1": "R9.9"})
+    # R9.12: whenever the output package exists and force is off, the compare-only branch runs (nothing else decides "first run")   [= R10.3]
+    reuse(repo, rep, "c10", {"R10.3": "R9.12"}, only=lambda subj: "mode switch" in subj)
+    rule_no_memoised_outside_reads(repo, rep, "R9.13")
 
     # R9.7b emit-time renaming of IR names must be idempotent (test, loop, record)
     _idempotent_renames(repo, rep)
@@ -1006,3 +1013,139 @@ def rule_relpath_operands_agree(repo: Repo, rep, rule: str = "R9.11") -> None:
                               "generation) the relative path leaves the package, the rendered import differs from direct generation and an unchanged output is reported as different",
                               fn.loc(c))
     rep.require(n_pairs >= 3, f"{rule}: only {n_pairs} relative-path computations with traceable operands found in RenderContext (floor 3)")
+
+
+# ------------------------------------------------------------------------------------------------ R9.13 nothing read from outside the process is memoised
+_R913_EXAMPLE = '''
+from functools import lru_cache
+from pathlib import Path
+
+def load(path):
+    return copy.deepcopy(_parse(str(Path(path).resolve())))
+
+@lru_cache(maxsize=16)
+def _parse(path):
+    return json.loads(Path(path).read_text())
+'''
+_MEMO_DECORATORS = {"lru_cache", "cache", "cached", "memoize"}
+_OUTSIDE_READS = {"read_text", "read_bytes", "exists", "is_file", "is_dir", "stat", "iterdir", "glob", "rglob", "listdir", "getenv", "getmtime", "getsize", "walk", "scandir"}
+
+
+def _reads_outside(fn_node: ast.AST, module_fns: Dict[str, ast.AST], depth: int = 2, seen: Optional[Set[str]] = None) -> Optional[ast.AST]:
+    """First expression in the function (or in module-level helpers it calls, a few hops) that reads something outside the process:
+    a file, a directory listing, a file's metadata, the environment, a URL."""
+    seen = seen if seen is not None else set()
+    for c in ast.walk(fn_node):
+        if isinstance(c, ast.Call):
+            d = dotted(c.func) or ""
+            last = d.split(".")[-1] if d else (c.func.attr if isinstance(c.func, ast.Attribute) else "")
+            if last in _OUTSIDE_READS or d == "open" or d.startswith(("httpx.", "requests.", "urllib.")) or d in ("os.getenv", "os.stat"):
+                return c
+            if depth > 0 and isinstance(c.func, ast.Name) and c.func.id in module_fns and c.func.id not in seen:
+                seen.add(c.func.id)
+                r = _reads_outside(module_fns[c.func.id], module_fns, depth - 1, seen)
+                if r is not None:
+                    return r
+        if isinstance(c, ast.Attribute) and norm(c) == "os.environ":
+            return c
+    return None
+
+
+def _memoised_outside_reads(tree: ast.AST):
+    fns = {n.name: n for n in ast.walk(tree) if isinstance(n, (ast.FunctionDef, ast.AsyncFunctionDef))}
+    out, n_memo = [], 0
+    for name, fn in fns.items():
+        decos = []
+        for d in fn.decorator_list:
+            t = d.func if isinstance(d, ast.Call) else d
+            nm = (dotted(t) or "").split(".")[-1]
+            if nm in _MEMO_DECORATORS:
+                decos.append(d)
+        if not decos:
+            continue
+        n_memo += 1
+        r = _reads_outside(fn, fns)
+        if r is not None:
+            out.append((fn, decos[0], r))
+    # `f = lru_cache(...)(g)` / `f = cache(g)` at module level
+    for st in ast.walk(tree):
+        if isinstance(st, ast.Assign) and isinstance(st.value, ast.Call):
+            c = st.value
+            inner = c.func.func if isinstance(c.func, ast.Call) else c.func
+            nm = (dotted(inner) or "").split(".")[-1]
+            if nm in _MEMO_DECORATORS and c.args and isinstance(c.args[0], ast.Name) and c.args[0].id in fns:
+                n_memo += 1
+                r = _reads_outside(fns[c.args[0].id], fns)
+                if r is not None:
+                    out.append((fns[c.args[0].id], c, r))
+    return out, n_memo
+
+
+def rule_no_memoised_outside_reads(repo: Repo, rep, rule: str = "R9.13", live: Optional[List[str]] = None) -> None:
+    """A function whose result is memoised for the life of the process (functools.lru_cache / cache) answers the second call from the first
+    call's result.  If it reads a file, a directory, the environment or a URL, a later generation in the same process does not see what is
+    there now: the output depends on prior runs, a spec edited (or deleted) between two runs is compared as if unchanged, and the non-force
+    run reports 'no differences' for an outdated tree."""
+    hz, n = _memoised_outside_reads(ast.parse(_R913_EXAMPLE))
+    rep.require(len(hz) == 1 and n == 1, f"{rule}: the built-in positive example is no longer recognised - the rule is broken")
+    live = live if live is not None else repo.import_closure(["generator.client_generator", "core.spec_fetcher", "cli"])
+    n_mod = n_memo = 0
+    found = False
+    for mn in live:
+        mod = repo.modules[mn]
+        n_mod += 1
+        hz, n = _memoised_outside_reads(mod.tree)
+        n_memo += n
+        for fn, deco, read in hz:
+            found = True
+            rep.violation(rule, f"{mod.relpath}:{fn.name} memoised with `{norm(deco)[:40]}`", f"{mod.name}:{fn.name}|memoised-outside-read",
+                          f"`{norm(read)[:60]}` is evaluated once per argument and process: a second generation in the same process (watch script, build daemon, test session) "
+                          "works from the first run's reading - a spec file changed or removed in between yields the old client, and the non-force comparison reports no "
+                          "differences / no failure", f"{mod.relpath}:{fn.lineno}")
+    rep.count(f"{rule}:modules", n_mod)
+    rep.count(f"{rule}:memoised_functions", n_memo)
+    rep.require(n_mod >= 40, f"{rule}: only {n_mod} modules on the generation path analysed (floor 40)")
+    if not found:
+        rep.ok(rule, "functions on the generation path that are memoised per process", f"{n_memo} memoised function(s) in {n_mod} modules: none reads files, directories, the environment or URLs", "src/pyopenapi_gen:1")
+
+
+# ------------------------------------------------------------------------------------------------ R9.4 (shared with C10 / C12): no generated file is left out of the comparison
+def rule_show_diffs_compares_all(repo: Repo, rep, rule: str = "R9.4") -> None:
+    """Every *.py of the newly generated tree is compared: the loop of _show_diffs runs over the glob result itself (not over a filtered
+    list) and has no skip."""
+    sd = repo.func("generator.client_generator:ClientGenerator._show_diffs")
+    from sa.flatten import flatten as _fl94b
+
+    sd = _fl94b(sd)
+    SL = Locals(sd.node)
+
+    def _exists_call(x: ast.AST) -> bool:
+        return isinstance(x, ast.Call) and ((isinstance(x.func, ast.Attribute) and x.func.attr in ("exists", "is_file")) or (dotted(x.func) or "") in (
+            "os.path.exists", "os.path.isfile"))
+
+    # ... and every one of them is compared: the loop runs over the glob result itself (not over a filtered list) and has no skip
+    cmp_loops = [lp for lp in own_nodes(sd.node) if isinstance(lp, ast.For) and any(_exists_call(x) for x in ast.walk(lp))]
+    skipped = None
+    for lp in cmp_loops:
+        srcs = [lp.iter]
+        if isinstance(lp.iter, ast.Name):
+            srcs = [v for _, v, _ in SL.defs.get(lp.iter.id, []) if v is not None] or [lp.iter]
+        for v in srcs:
+            for x in ast.walk(v):
+                if isinstance(x, (ast.ListComp, ast.GeneratorExp, ast.SetComp)) and any(g.ifs for g in x.generators):
+                    skipped = skipped or (x, f"the compared files are a filtered list (`{norm(x)[:60]}`)")
+                if isinstance(x, ast.Call) and isinstance(x.func, ast.Name) and x.func.id == "filter":
+                    skipped = skipped or (x, f"the compared files are a filtered list (`{norm(x)[:60]}`)")
+        for x in ast.walk(lp):
+            if isinstance(x, ast.If) and any(isinstance(b, (ast.Continue, ast.Break)) for b in x.body) and not any(_exists_call(y) for y in ast.walk(x.test)):
+                skipped = skipped or (x, f"`{norm(x.test)[:60]}` skips files of the newly generated tree")
+    if cmp_loops:
+        if skipped:
+            rep.violation(rule, f"{sd.module.relpath}:_show_diffs compares every generated file", f"{sd.fq}|files-left-out",
+                          f"{skipped[1]}: a difference (or a missing / stale file) confined to the files that are left out goes unreported and the non-force run succeeds "
+                          "over an output that differs from what would be generated", sd.loc(skipped[0]))
+        else:
+            rep.ok(rule, f"{sd.module.relpath}:_show_diffs compares every generated file", "the comparison loop runs over the glob result itself and skips nothing", sd.loc(cmp_loops[0]))
+
+    else:
+        raise AnalysisError(f"{rule}: the per-file comparison loop of _show_diffs was not found (anchor)")
